@@ -30,7 +30,7 @@ REQUIRED_CLAUSES = ["mirror.local", "mirror.involution", "midpoint.pos", "midpoi
 
 def plan(tier, seed):
     if tier == "quick":
-        return [{"n": 900, "timeout_s": 1800} for _ in range(8)]
+        return [{"n": 900, "timeout_s": 1800} for _ in range(16)]
     return [{"n": 30000, "timeout_s": 7200} for _ in range(16)]
 
 
